@@ -127,6 +127,10 @@ def run_oracle(services, events, toks):
                 if left:
                     verdicts.append(("unanswered", "process %d of %s failed, still waiting: %s" % (sid, name, [(w["conn"], w["serial"]) for w in left])))
                 open_act.pop(name, None)
+                # the bus also gives up every other activation with the same Exec line (F19.2); with no connected waiter
+                # left that shows nowhere, so it is taken from the service table to keep the respawn check honest
+                for m in [m for m in open_act if exec_of.get(m) == exec_of.get(name)]:
+                    open_act.pop(m, None)
             # activations closed as collateral (same Exec) are noted so that later starts are not flagged
             for c, q in answered_now:
                 if q[0] == "e" and c["name"] in open_act and c["name"] != name:
